@@ -71,3 +71,14 @@ package dns
 //@ func sign [C18 C10]
 //@   opt no-safety
 //@   pure
+
+// the "hash" of the algorithms that sign the message itself (Ed25519): what was written comes back unchanged,
+// appended to the caller's prefix
+//@ func (identityHash).Write [C10 C18]
+//@   opt no-safety
+//@   callsite "Write" all: same(arg1, b) && arg0 == i.b
+//@   exit res: ret0 == callres("Write", 0)
+//@ func (identityHash).Sum [C10 C18]
+//@   opt no-safety
+//@   callsite "Bytes" buf: arg0 == i.b
+//@   exit len: len(ret0) == len(b) + len(callres("Bytes"))
